@@ -313,6 +313,15 @@ func (c *FnCtx) zero(sort string, t types.Type) Term {
 	return Term{name, sort}
 }
 
+func (c *FnCtx) noteOnce(n string) {
+	for _, x := range c.eng.Notes {
+		if x == n {
+			return
+		}
+	}
+	c.eng.Notes = append(c.eng.Notes, n)
+}
+
 func (c *FnCtx) declOnce(d string) {
 	for _, x := range c.decls {
 		if x == d {
